@@ -135,7 +135,11 @@ pub fn scale_name(r: &mut Rng) -> &'static str {
     crate::codec::ts2s(crate::codec::SCALES[r.below(9) as usize])
 }
 
+/// The seed of the current `hv inputs` run (exhaustive enumerations are sharded by it).
+pub static SEED: std::sync::atomic::AtomicU64 = std::sync::atomic::AtomicU64::new(0);
+
 pub fn inputs(prop: &str, seed: u64, n: usize, tier: &str, out: &mut dyn Write) {
+    SEED.store(seed, std::sync::atomic::Ordering::Relaxed);
     let mut r = Rng::new(seed ^ props::salt(prop));
     props::inputs(prop, &mut r, n, tier, out);
 }
